@@ -53,6 +53,19 @@ CORPUS = [
      [["mkcoll", 0], ["put", 0, 0, "a", 0], ["sync", 0, None], ["put", 0, 0, "a", 1], ["put", 0, 0, "a", 0], ["sync", 0, 0],
       ["del", 0, 0], ["put", 0, 0, "a", 0], ["sync", 0, 0], ["dropcache", 0, True], ["sync", 0, 0], ["dropcache", 0, False],
       ["sync", 0, 0], ["sync", 0, None]]),
+    # an item known to the token but to neither the collection nor the history any more (second loop of sync())
+    (dict(sub_item=False, sub_hist=False, sub_tok=True, max_age=100),
+     [["mkcoll", 0], ["put", 0, 0, "a", 0], ["put", 0, 1, "b", 0], ["sync", 0, None], ["replace", 0, [["b", 0]]], ["sync", 0, 0]]),
+    (dict(sub_item=False, sub_hist=False, sub_tok=False, max_age=100),
+     [["mkcoll", 0], ["put", 0, 0, "a", 0], ["sync", 0, None], ["del", 0, 0], ["tick", 100], ["put", 0, 1, "b", 0], ["sync", 0, 0],
+      ["sync", 0, ["last"]]]),
+    # a token handed out again later lives on from that moment (utime branch)
+    (dict(sub_item=False, sub_hist=False, sub_tok=False, max_age=100),
+     [["mkcoll", 0], ["sync", 0, None], ["tick", 100], ["sync", 0, None], ["put", 0, 0, "a", 0], ["sync", 0, None], ["sync", 0, 0]]),
+    # white space around the token, malformed and unknown tokens
+    (dict(sub_item=False, sub_hist=False, sub_tok=False, max_age=100),
+     [["mkcoll", 0], ["put", 0, 0, "a", 0], ["sync", 0, None], ["put", 0, 0, "a", 1], ["sync", 0, ["ws", 0]], ["sync", 0, ["mal", "garbage"]],
+      ["sync", 0, ["mal", "   "]], ["sync", 0, 9], ["ptok", 0], ["sync", 0, None]]),
 ]
 
 
